@@ -4,5 +4,6 @@ CONSTANTS
   DEV_NoInvalidateOnPredictionTR = FALSE
   DEV_NoReindexOnNetworkTR = TRUE
   DEV_NoInvalidateCycle = FALSE
+  DEV_MergeRebuildOnlyIfAll = FALSE
 VIEW View
 INVARIANT InvFresh
